@@ -63,6 +63,11 @@ pub struct Case {
     /// results of successive stream.flush() calls, repeating (true = Ok)
     #[serde(default)]
     pub flush_results: Vec<bool>,
+    /// drop-handle path only: the queue has a metrics recorder, and the last appends and the drop
+    /// of the join handle happen while the writer thread is held inside the recorder call at the
+    /// end of a flush interval (after its queue-length sample, before it looks at the shutdown flag)
+    #[serde(default)]
+    pub during_recorder_call: bool,
 }
 
 metrique_writer::sink::global_entry_sink! { C05Global }
@@ -82,7 +87,25 @@ pub fn check(case: &Case) -> CaseResult {
     let hold = Arc::new(FlushHold::default());
     stream.flush_hold = Some(hold.clone());
     let interval = if case.flush_ms { Duration::from_millis(1) } else { Duration::from_micros(50) };
-    let (q, handle) = build_queue(100_000, case.boxed || case.end == End::GlobalDetach, interval, stream);
+    let rec_hold = Arc::new(FlushHold::default());
+    let rec_hold_active = case.during_recorder_call && case.end == End::DropHandle;
+    let (q, handle) = if rec_hold_active {
+        let b = metrique_writer::sink::BackgroundQueueBuilder::new()
+            .capacity(100_000)
+            .flush_interval(interval)
+            .thread_name("vq")
+            .metric_name("vq")
+            .metrics_recorder_local::<dyn metrics_024::Recorder, _>(HeldRecorder { hold: rec_hold.clone() });
+        if case.boxed {
+            let (q, h) = b.build_boxed(stream);
+            (Q::Boxed(q), h)
+        } else {
+            let (q, h) = b.build::<TestE>(stream);
+            (Q::Typed(q), h)
+        }
+    } else {
+        build_queue(100_000, case.boxed || case.end == End::GlobalDetach, interval, stream)
+    };
     let mut attach = None;
     let mut handle = Some(handle);
     let mut handles: Vec<Q> = vec![q];
@@ -148,11 +171,26 @@ pub fn check(case: &Case) -> CaseResult {
     }
     match case.end {
         End::DropHandle | End::GlobalDetach => {
+            if rec_hold_active {
+                // let the writer run, catch it inside the recorder call that ends a flush
+                // interval, append while it is held there; the handle drop below starts before it
+                // is released
+                gate.open();
+                rec_hold.arm();
+                if !rec_hold.wait_in_flush(Duration::from_secs(5)) {
+                    rec_hold.release();
+                    let _ = no_panic("queue-shutdown", || drop(handle.take()));
+                    return Ok(vec!["inconclusive-timeout"]);
+                }
+                do_append(&handles, 3 + case.after as usize % 5, &mut seq, &log);
+                classes.push("handle-dropped-while-writer-inside-recorder-call");
+            }
             // the drop must begin while entries are queued: a helper opens the gate afterwards
             let opener = {
                 let gate = gate.clone();
                 let log = log.clone();
                 let delay = case.open_delay;
+                let rec_hold = rec_hold.clone();
                 std::thread::spawn(move || {
                     // wait for the drop to start
                     let t0 = std::time::Instant::now();
@@ -161,6 +199,9 @@ pub fn check(case: &Case) -> CaseResult {
                     }
                     jitter(delay);
                     gate.open();
+                    // the drop has set the shutdown flag by now (it does so before it joins)
+                    std::thread::sleep(Duration::from_micros(300));
+                    rec_hold.release();
                 })
             };
             let stop_racer = Arc::new(std::sync::atomic::AtomicBool::new(false));
@@ -378,7 +419,7 @@ pub fn check(case: &Case) -> CaseResult {
     Ok(classes)
 }
 
-pub const RULE: &str = "histories of Append(n) / Clone / DropClone / FlushReq / Grant(k) on a typed or boxed queue whose writer is stalled behind a fuel gate and whose stream answers entries with a repeating Ok / Io script and flushes with a repeating Ok / error script, ended by (a) dropping the join handle while entries are still queued (a helper opens the gate after the drop began; in 30% of these cases the drop is performed by a guard object while its thread unwinds from a panic), (b) forgetting the join handle and dropping every queue handle (flush futures requested earlier dropped first, or - half of the cases - kept alive and unawaited) - also with the last appends and the drop of the last handle placed while the writer thread is held inside one of its periodic stream flushes (harness-owned flush callback), (c) the same queue attached to a harness-declared global_entry_sink! and detached by dropping the AttachHandle, in half of these cases while another thread keeps calling try_append on the global; then appends after the end. Oracle over the event log: when the drop returns every entry appended before it began has reached the stream, the stream was flushed after the last of them and dropped; later appends never appear (try_append hands the entry back for a detached global); pending flush futures complete. Forget path, decided by counting: after the last queue handle is dropped the stream must be drained, flushed and dropped before 60 further periodic stream flushes are observed (else 'runs forever'); 10 s without either is inconclusive. Non-trivial = shutdown begins with entries still queued, or the forget path";
+pub const RULE: &str = "histories of Append(n) / Clone / DropClone / FlushReq / Grant(k) on a typed or boxed queue whose writer is stalled behind a fuel gate and whose stream answers entries with a repeating Ok / Io script and flushes with a repeating Ok / error script, ended by (a) dropping the join handle while entries are still queued - or, on a queue with a metrics recorder, while the writer is held inside the recorder call that ends a flush interval, with entries appended during that hold - (a helper opens the gate after the drop began; in 30% of these cases the drop is performed by a guard object while its thread unwinds from a panic), (b) forgetting the join handle and dropping every queue handle (flush futures requested earlier dropped first, or - half of the cases - kept alive and unawaited) - also with the last appends and the drop of the last handle placed while the writer thread is held inside one of its periodic stream flushes (harness-owned flush callback), (c) the same queue attached to a harness-declared global_entry_sink! and detached by dropping the AttachHandle, in half of these cases while another thread keeps calling try_append on the global; then appends after the end. Oracle over the event log: when the drop returns every entry appended before it began has reached the stream, the stream was flushed after the last of them and dropped; later appends never appear (try_append hands the entry back for a detached global); pending flush futures complete. Forget path, decided by counting: after the last queue handle is dropped the stream must be drained, flushed and dropped before 60 further periodic stream flushes are observed (else 'runs forever'); 10 s without either is inconclusive. Non-trivial = shutdown begins with entries still queued, or the forget path";
 
 pub fn run(ctx: &mut Ctx) {
     ctx.assume("termination of the forgotten queue is decided by counting the writer's periodic stream flushes (flush interval 1 ms / 50 us), never by a wall-clock deadline");
@@ -387,7 +428,7 @@ pub fn run(ctx: &mut Ctx) {
         SubCfg::new("c05-shutdown", RULE, if q { 1_500 } else { 30_000 })
             .threads(ctx.tier.pick(4, 8))
             .shrink_iters(60)
-            .mandatory(&["entries-queued-at-shutdown", "forget-path", "drop-handle", "global-detach", "append-after-shutdown", "last-handle-dropped-during-periodic-flush", "handle-dropped-while-unwinding", "detach-with-racing-appender", "forget-with-unawaited-flush-futures-alive", "stream-io-results", "stream-flush-errors"]),
+            .mandatory(&["entries-queued-at-shutdown", "forget-path", "drop-handle", "global-detach", "append-after-shutdown", "last-handle-dropped-during-periodic-flush", "handle-dropped-while-unwinding", "detach-with-racing-appender", "forget-with-unawaited-flush-futures-alive", "stream-io-results", "stream-flush-errors", "handle-dropped-while-writer-inside-recorder-call"]),
         || {
             (
                 any::<bool>(),
@@ -412,9 +453,10 @@ pub fn run(ctx: &mut Ctx) {
                 (
                     prop::collection::vec(prop_oneof![3 => Just(crate::iofault::SRes::Ok), 1 => Just(crate::iofault::SRes::Io)], 0..8),
                     prop::collection::vec(prop::bool::weighted(0.6), 0..4),
+                    prop::bool::weighted(0.3),
                 ),
             )
-                .prop_map(|(boxed, ops, end, after, open_delay, flush_ms, during_flush, unwinding, racing_appender, keep_flush_futures, (results, flush_results))| Case {
+                .prop_map(|(boxed, ops, end, after, open_delay, flush_ms, during_flush, unwinding, racing_appender, keep_flush_futures, (results, flush_results, during_recorder_call))| Case {
                     boxed,
                     ops,
                     end,
@@ -427,6 +469,7 @@ pub fn run(ctx: &mut Ctx) {
                     keep_flush_futures,
                     results,
                     flush_results,
+                    during_recorder_call,
                 })
         },
         check,
